@@ -1,6 +1,13 @@
-"""Names used by the sidecar contract files.  The files are never executed by
-the verifier (it reads them as ASTs); these definitions only keep them
-importable and lint-clean."""
+"""Names used by the sidecar contract files.
+
+The verifier never executes the sidecar (it reads the files as ASTs).  This module gives the
+same names a *native* meaning, so that a contract can also be evaluated on real penman objects:
+calling a contract function with concrete arguments runs its `requires(...)`/`ensures(...)`
+calls and records their truth values (counterexample replay, bounded arming)."""
+import re as _re
+
+_record = None     # active recording: list of (kind, label, value)
+_state = {}        # 'result', 'old' map for the active evaluation
 
 
 def contract(target, **options):
@@ -20,8 +27,240 @@ def lemma(fn):
     return fn
 
 
-def _noop(*a, **k):
+def requires(v):
+    if _record is not None:
+        _record.append(('requires', None, bool(v)))
+
+
+def ensures(v, label=None):
+    if _record is not None:
+        _record.append(('ensures', label, bool(v)))
+
+
+def raises(*a, **k):
     return None
 
 
-requires = ensures = raises = invariant = decreases = modifies = option = local = induct = exclude = _noop
+def invariant(*a, **k):
+    return None
+
+
+decreases = modifies = option = local = induct = exclude = invariant
+
+
+def evaluate(contract_fn, args, result, olds):
+    """run the contract natively: returns [(kind, label, bool or exception text)]"""
+    global _record
+    g = contract_fn.__globals__
+    saved = {k: g.get(k, _MISSING) for k in ('result',)}
+    g['result'] = result
+    _state['olds'] = olds
+    _record = []
+    try:
+        try:
+            contract_fn(*args)
+        except Exception as e:   # a clause that cannot be evaluated natively
+            _record.append(('error', None, '%s: %s' % (type(e).__name__, e)))
+        return list(_record)
+    finally:
+        _record = None
+        for k, v in saved.items():
+            if v is _MISSING:
+                g.pop(k, None)
+            else:
+                g[k] = v
+
+
+_MISSING = object()
+
+
+# ---- specification vocabulary, natively ---------------------------------------------------
+
+def old(x):
+    return _state.get('olds', {}).get(id(x), x)
+
+
+def implies(a, b):
+    return (not a) or bool(b)
+
+
+def has(model, role):
+    return model._has_role(role)
+
+
+def noop(model):
+    return type(model).__name__ == 'NoOpModel'
+
+
+def norm_has(model, role):
+    return role in model.normalizations
+
+
+def norm_get(model, role):
+    return model.normalizations.get(role)
+
+
+def reif_has(model, role):
+    return role in model.reifications
+
+
+def reif_get(model, role):
+    return model.reifications.get(role)
+
+
+def dereif_has(model, c):
+    return c in model.dereifications
+
+
+def dereif_get(model, c):
+    return model.dereifications.get(c)
+
+
+def top_role(model):
+    return model.top_role
+
+
+def is_str(x):
+    return isinstance(x, str)
+
+
+def is_int(x):
+    return isinstance(x, int) and not isinstance(x, bool)
+
+
+def is_bool(x):
+    return isinstance(x, bool)
+
+
+def is_float(x):
+    return isinstance(x, float)
+
+
+def is_none(x):
+    return x is None
+
+
+def is_tuple(x):
+    return isinstance(x, tuple)
+
+
+def is_list(x):
+    return isinstance(x, list)
+
+
+def is_atomic(x):
+    return x is None or isinstance(x, (str, int, float))
+
+
+def is_obj(x):
+    return hasattr(x, '__slots__') or hasattr(x, '__dict__')
+
+
+def is_inst(x, clsname):
+    return any(c.__name__ == clsname for c in type(x).__mro__)
+
+
+def in_re(s, pattern):
+    return isinstance(s, str) and _re.fullmatch(pattern, s, _re.S) is not None
+
+
+def forall_idx(seq, f):
+    import inspect
+    n = len(inspect.signature(f).parameters)
+    return all(f(i, x) if n > 1 else f(i) for i, x in enumerate(seq))
+
+
+def exists_idx(seq, f):
+    import inspect
+    n = len(inspect.signature(f).parameters)
+    return any(f(i, x) if n > 1 else f(i) for i, x in enumerate(seq))
+
+
+class set_where:
+    """the set of all x with pred(x); compared with a real set extensionally over the values at hand"""
+    def __init__(self, pred):
+        self.pred = pred
+
+    def __eq__(self, other):
+        if isinstance(other, set_where):
+            return NotImplemented
+        universe = set(_state.get('universe', ())) | set(other)
+        return all((x in other) == bool(self.pred(x)) for x in universe)
+
+    __hash__ = None
+
+    def __contains__(self, x):
+        return bool(self.pred(x))
+
+
+def set_of_seq(seq):
+    return set(seq)
+
+
+def set_add(s, x):
+    return set(s) | {x}
+
+
+def set_union(a, b):
+    return set(a) | set(b)
+
+
+def subset(a, b):
+    return all(x in b for x in a)
+
+
+def dict_has(d, k):
+    return k in d
+
+
+def dict_get(d, k, default=None):
+    return d.get(k, default)
+
+
+def dict_keys(d):
+    return list(d)
+
+
+def seq_eq(a, b):
+    return list(a) == list(b)
+
+
+def mk(clsname, *fields):
+    from penman import layout, surface
+    if clsname == 'Push':
+        return layout.Push(*fields)
+    if clsname == 'Pop':
+        return layout.POP
+    cls = getattr(surface, clsname)
+    return cls(*fields)
+
+
+def fld(obj, name):
+    return getattr(obj, name)
+
+
+def aln_marker(clsname, text):
+    from penman import surface
+    return getattr(surface, clsname).from_string(text)
+
+
+def aln_ok(text):
+    from penman import surface
+    try:
+        surface.Alignment.from_string(text)
+        return True
+    except Exception:
+        return False
+
+
+def str_of(x):
+    return str(x)
+
+
+def json_dumps(s):
+    import json
+    return json.dumps(s)
+
+
+def last_index(s, sub):
+    return s.rfind(sub)
